@@ -101,6 +101,16 @@ class ManifestContext:
         if self.timing_ref is not None:
             timing = DashTiming(self.now, self.timing_ref, options)
             self.mediaDuration = self.timing_ref.media_duration_timedelta().total_seconds()
+            if options.mode == 'live' and options.segmentTimeline:
+                # a SegmentTimeline is generated one segment at a time
+                max_segments: int = 100_000
+                num_segments = (
+                    timing.timeShiftBufferDepth * self.timing_ref.timescale /
+                    self.timing_ref.segment_duration)
+                if num_segments > max_segments:
+                    raise ValueError(
+                        'timeShiftBufferDepth is too large for a SegmentTimeline ' +
+                        f'(more than {max_segments} segments)')
 
         if multi_period:
             if options.mode == 'live':
